@@ -3,10 +3,10 @@ package main
 // C07 — retention never deletes what the latest restore needs.
 
 import (
-	"os"
 	"fmt"
 	"go/token"
 	"go/types"
+	"os"
 	"strings"
 
 	"golang.org/x/tools/go/ssa"
